@@ -14,7 +14,8 @@ for m in glob.glob(f"{R}/seeded/*/meta.json"):
     s[0] += d.get("detected_by_check") == "yes"
 man = json.load(open(f"{R}/MANIFEST.json"))
 na = {x["property_id"]: x["reason"] for x in man["not_applicable"]}
-rows = ["| id | title | status | level | technique (one line; full text in MANIFEST.json / registry.d) | defects fixed / open | seeded caught / tried |", "|---|---|---|---|---|---|---|"]
+tim = json.load(open(f"{R}/tools/quick_timings.json"))["checks"] if os.path.exists(f"{R}/tools/quick_timings.json") else {}
+rows = ["| id | title | status | level | technique (one line; full text in MANIFEST.json / registry.d) | defects fixed / open | seeded caught / tried | quick wall / cpu s |", "|---|---|---|---|---|---|---|---|"]
 for p in props:
     pid = p["id"]
     f = f"{R}/harness/registry.d/{pid}.json"
@@ -25,9 +26,9 @@ for p in props:
         r = json.load(open(f))
         tech = re.sub(r"\s+", " ", r["technique"]).replace("|", "/")
         tech = tech if len(tech) <= 230 else tech[:227] + "..."
-        rows.append(f"| {pid} | {p['title']} | claimed | {r['level']} | {tech} | {fx} / {op} | {f'{sd[0]} / {sd[1]}' if sd else '-'} |")
+        rows.append(f"| {pid} | {p['title']} | claimed | {r['level']} | {tech} | {fx} / {op} | {f'{sd[0]} / {sd[1]}' if sd else '-'} | {str(tim[pid]['wall_s']) + ' / ' + str(tim[pid]['cpu_s']) if pid in tim else '-'} |")
     else:
-        rows.append(f"| {pid} | {p['title']} | not applicable | - | {na.get(pid, '')[:230].replace('|', '/')} | - | - |")
+        rows.append(f"| {pid} | {p['title']} | not applicable | - | {na.get(pid, '')[:230].replace('|', '/')} | - | - | - |")
 txt = "\n".join(rows)
 p = f"{R}/DESIGN.md"
 s = open(p).read()
